@@ -130,6 +130,18 @@ def run_server_case(phase=None, pkttype=None, body=b'', second=None,
             log.append('session_requested')
             return SS()
 
+    # every packet the server under test emits (types, IGNORE left out)
+    from asyncssh import _verif
+    emitted = []
+
+    def sink(name, f):
+        conn = f.get('conn')
+        if name == 'pkt_out' and conn is not None and conn.is_server() and \
+                f['pkttype'] != 2:
+            emitted.append(f['pkttype'])
+
+    _verif.set_sink(sink)
+
     async def go():
         res['acc'] = await asyncssh.listen(
             '127.0.0.1', 2222, server_factory=Srv,
@@ -141,9 +153,15 @@ def run_server_case(phase=None, pkttype=None, body=b'', second=None,
     try:
         loop.run_until_complete(go())
     except (asyncssh.Error, OSError, Deadlock) as exc:
+        try:
+            loop.run_until_idle()
+        except BaseException:           # pylint: disable=broad-except
+            pass
+        _verif.set_sink(None)
         close_loop(loop)
         return {'seen': [], 'log': log, 'closed': True,
-                'setup_error': repr(exc), 'loop_exceptions': []}
+                'setup_error': repr(exc), 'loop_exceptions': [],
+                'emitted': list(emitted)}
     raw = res['raw']
     loop.run_until_idle()
     raw.take()
@@ -184,8 +202,10 @@ def run_server_case(phase=None, pkttype=None, body=b'', second=None,
     conf = [p for t, p in raw.inbox if t == 91]
     send(98, UInt32(0) + String(b'exec') + Boolean(True) + String(b'cmd'))
     out = {'seen': seen, 'log': list(log), 'closed': bool(res.get('closed')),
+           'emitted': list(emitted),
            'loop_exceptions': [str(c.get('exception') or c.get('message'))
                                for c in loop.exceptions]}
+    _verif.set_sink(None)
     try:
         raw.abort()
         res['acc'].close()
@@ -354,3 +374,11 @@ def run_client_case(point=None, pkttype=None, body=b'', second=None,
         t.cancel()
     close_loop(loop)
     return out
+
+
+def acted(emitted, twin_emitted):
+    """Did the endpoint under test DO something the untampered twin did not:
+    its emitted packet types, DISCONNECT (1) and UNIMPLEMENTED (3) aside,
+    must be a prefix of what the twin emitted."""
+    mine = [t for t in emitted if t not in (1, 3)]
+    return mine != twin_emitted[:len(mine)]
